@@ -336,11 +336,15 @@ struct ModelRun
         }
         const size_t sb0 = shadow->size();
         Outcome      rb  = x.exec(*shadow, o, step);
-        if (twin_mode == "twin-noop" && M.ttl_kind())
+        const bool f8_range = twin_mode == "twin-range" && M.utx() && x.c.cfg.ttl_ms == 0 && !x.opt.strict_f8;
+        if ((twin_mode == "twin-noop" && M.ttl_kind()) || f8_range)
         {
-            // what the statement allows to differ: results of an erase addressed to an expired key, and the size-derived clean count
+            // what the statement allows to differ: results of an erase addressed to an expired key, and the size-derived clean count.
+            // (F8: at uniform TTL 0 a range call leaves all its dead-on-arrival entries resident, the singles only the last one)
             if (o.code == cs::O_CLEAN)
             {
+                if (f8_range && r.n != rb.n)
+                    x.label("excluded_known_F8_C18");
                 if (!rb.skipped && sb0 - rb.n != M.live.size())
                     x.fail(step, twin_tag + ",C17", "twin_clean_count",
                            "second instance: size before " + std::to_string(sb0) + " - returned " + std::to_string(rb.n) + " != live " + std::to_string(M.live.size()));
